@@ -50,6 +50,17 @@ CHECKS = {
         note='In-process crash simulation (BaseException at effect boundaries; written data assumed on disk); '
              'TensorBoard summaries stubbed; harness-supplied deterministic algorithm/eval fns; TLC, JVM.',
         design='5/C09'),
+    'C13': dict(
+        technique='TLA+ spec Sampler.tla (sample / set_round_num / fresh sampler / streaming restart) model-checked by '
+                  'TLC; every enumerated history replayed on real samplers (in-memory and SQLite data, several '
+                  'processes with different hash seeds) and the executions validated by TLC (SamplerTrace.tla)',
+        text='TLC enumerates every history of length <= 4 (quick) / 5 (thorough) and proves purity in the round on the '
+             'design (with hidden-generator and off-by-one-restart deviations reported); each history plus longer '
+             'random ones is executed on the real samplers, in this process and in restarted processes with other '
+             'hash seeds, and TLC checks over all executions of a configuration that a round always returns the same '
+             'ids/datasets/keys, no repeats, ids from the dataset, keys distinct within and across rounds.',
+        note='Outputs compared by content digest; the no-repeat clause applies to the round-indexed sampler only.',
+        design='5/C13'),
     'C15': dict(
         technique='TLA+ specs MultiBatch.tla (carry-over buffer machine), BufShuffle.tla (swap machine), RepIter.tla '
                   'model-checked by TLC; MultiBatch final states replayed into padded_batch_client_datasets / '
